@@ -4,6 +4,7 @@ import Genshi.Model.MatchPath
 import Genshi.Model.MatchLazy
 import Genshi.Model.MatchSpec
 import Genshi.Model.MatchReal
+import Genshi.Model.MatchOnceXp
 import Driver.C05
 namespace Driver.C12
 open Genshi Genshi.Match Genshi.Sexp
@@ -22,6 +23,7 @@ open Genshi Genshi.Match Genshi.Sexp
   C12 real <fuel> ( ritem … )    the automaton model with `mkReal` templates
   C12 xspec ( ritem … )           the specification with the XPath reference semantics as the "matches"
                                   relation (`xpForest`/`patternSel`): one tree rewrite per template
+                                  (`xpOnceForest` for a `once` template: the first XPath match in document order)
      ritem := ( S name ( ( attr value ) … ) ) | ( E name ) | ( T text )
             | ( REGT "path text" ( bitem … ) buffer once recursive )
 -/
@@ -122,7 +124,8 @@ def stages : List (MT PSt) → List Event → Option (List Event)
   | [], es => some es
   | t :: ts, es => do
       let forest ← toForest es [] []
-      stages ts (specList t t.st [] forest)
+      -- `once`: replace the first match in document order (`onceList`); otherwise every match (`specList`)
+      stages ts (if t.once then (onceList t t.st [] forest).1 else specList t t.st [] forest)
 
 def specAnswer (items : List (Item PSt)) : Sexp :=
   match items with
@@ -133,7 +136,7 @@ def specAnswer (items : List (Item PSt)) : Sexp :=
     | some evs =>
       match evs.reverse with
       | .end_ root' :: revc =>
-        if root' != root || decls.any (fun t => t.once) then .atom "unmodelled" else
+        if root' != root then .atom "unmodelled" else
         match stages decls revc.reverse with
         | some out => .list [.atom "ok", .list ((Event.start root ra :: out ++ [Event.end_ root]).map evOut), .list []]
         | none => .atom "unmodelled"
@@ -217,7 +220,9 @@ def xstages : List RDecl → List Event → Option (List Event)
   | [], es => some es
   | d :: ds, es => do
       let forest ← toForest es [] []
-      xstages ds (xpForest (patternSel d.paths [] []) d.body (!d.hints.notRecursive) forest)
+      -- `once`: the first XPath match in document order (`xpOnceForest`); otherwise every match (`xpForest`)
+      xstages ds (if d.hints.matchOnce then (xpOnceForest (patternSel d.paths [] []) d.body forest).1
+                  else xpForest (patternSel d.paths [] []) d.body (!d.hints.notRecursive) forest)
 
 def xspecAnswer (items : List Sexp) : Option Sexp :=
   match items with
@@ -236,7 +241,7 @@ def xspecAnswer (items : List Sexp) : Option Sexp :=
           let evs ← content.mapM rev?
           match evs.reverse with
           | .end_ root' :: revc =>
-            if root' != rootTag || decls.any (fun d => d.hints.matchOnce || !(d.paths.all specPathOk)) then
+            if root' != rootTag || decls.any (fun d => !(d.paths.all specPathOk)) then
               pure (.atom "unmodelled")
             else
               match xstages decls revc.reverse with
@@ -273,7 +278,7 @@ def handle : List Sexp → Option Sexp
       | none => pure (.list [.atom "err", .atom "fuel"])
   | [.atom "tree", .list items] => do
       -- the specification: one tree rewrite per template, in declaration order (declarations first,
-      -- no once, lawful matchers); answers `unmodelled` otherwise
+      -- lawful matchers; `once` templates by `onceList`); answers `unmodelled` otherwise
       let items ← items.mapM item?
       pure (specAnswer items)
   | _ => none
